@@ -58,11 +58,14 @@ C16Step(m, e) ==
                 ELSE m.exp
         \* calls made on a session that has already shut down are outside the statement (the design
         \* accepts no input then); numbering is re-based at the next Start
-        w == IF exp0 = 0 \/ e.pre.shutdown THEN [ok |-> TRUE, exp |-> exp0, why |-> ""] ELSE WalkNew(e.out, 1, exp0)
+        w == IF exp0 = 0 \/ (e.pre.shutdown /\ e.e # "Start") THEN [ok |-> TRUE, exp |-> exp0, why |-> ""] ELSE WalkNew(e.out, 1, exp0)
         \* "after each send and after each processed inbound message": calls that sent something and
         \* inbound messages handed to a session that had not already shut down
+        \* ... and send calls that moved the counter although nothing reached the wire (a batch whose flush failed has
+        \* numbered and stored its earlier members): the record follows the counters, not the socket
         applies == /\ HasPersist(m) /\ ~e.pre.shutdown
-                   /\ (e.e = "Recv" \/ (e.e \in {"Send", "SendBatch", "Start", "Tick"} /\ e.out # <<>>))
+                   /\ (e.e = "Recv" \/ (e.e \in {"Send", "SendBatch", "Start", "Tick"} /\ e.out # <<>>)
+                                    \/ (e.e \in {"Send", "SendBatch"} /\ e.post.ns # e.pre.ns))
         ctrlok == ~applies \/ e.post.ctrl = <<e.post.ns, e.post.nr>>
     IN [ok |-> w.ok /\ ctrlok,
         why |-> IF ~w.ok THEN w.why ELSE "control_record",
